@@ -1,4 +1,4 @@
 SPECIFICATION Spec
-CONSTANTS MaxOps = 7 MaxNp = 2 MaxNd = 1 Bug = "actkeep"
+CONSTANTS MaxOps = 7 MaxNp = 2 MaxNd = 1 Bug = "actkeep" ZoomAuto = FALSE
 INVARIANTS InvValid InvReads InvSetter InvErr InvSetUp
 CHECK_DEADLOCK FALSE
